@@ -51,6 +51,7 @@ LEVEL_TEXT = (
 LEVEL_NOTE = "In-process pipe pair with a server thread; trusts pyarrow, the model interpreter and the invocation recorder; requests via shm are emulated with public helpers."
 
 _counter = itertools.count()
+_VOLATILE = ("state_id", "allocs", "n_writes")  # recorder fields that legitimately differ between the two runs
 _cases_run = 0
 
 
@@ -112,11 +113,11 @@ def run_case(case: dict[str, Any]) -> Outcome:
                     f"differs_from_inline/{kind}/{aspect}" + ("/raw" if b["raw"] else ""),
                     f"call#{ci} {aspect}: inline {str(a[aspect])[:600]}\n shm {str(b[aspect])[:600]}\n (shm vs model: {md or 'agrees'})",
                 )
-        elif not b["raw"] and transports.compare_to_model(b, models[ci]):
+        elif not b["raw"] and "bad_input" not in call and transports.compare_to_model(b, models[ci]):
             out.label("model_disagrees_with_both")  # not C29's business (C01); visible in evidence
     # what the implementation received must not depend on the route
-    ia = [repr({k: v for k, v in e.items() if k != "state_id"}) for e in ev_inline]
-    ib = [repr({k: v for k, v in e.items() if k != "state_id"}) for e in ev_shm]
+    ia = [repr({k: v for k, v in e.items() if k not in _VOLATILE}) for e in ev_inline]
+    ib = [repr({k: v for k, v in e.items() if k not in _VOLATILE}) for e in ev_shm]
     if ia != ib:
         first = next((i for i, (x, y) in enumerate(zip(ia, ib, strict=False)) if x != y), min(len(ia), len(ib)))
         ea = ia[first] if first < len(ia) else None
@@ -157,6 +158,8 @@ def run_case(case: dict[str, Any]) -> Outcome:
     n_stream_batches = sum(len(o["batches"]) for o in res["obs"])
     if n_stream_batches > facts["n_shm_batches"] and facts["n_shm_batches"]:
         out.label("mixed_shm_and_inline_batches")
+    if any("bad_input" in c for c in calls):
+        out.label("has_rejected_input_call")
     if any(o["error"] is not None for o in res["obs"]):
         out.label("has_error_call")
     out.note = {"facts": facts, "calls": len(calls), "errors": [o["error"]["type"] if o["error"] else None for o in res["obs"]]}
@@ -170,7 +173,7 @@ def run_case(case: dict[str, Any]) -> Outcome:
 def main(chk: Check) -> None:
     # the threshold is a per-process constant of the code under test: each shard explores one value
     min_bytes = [0, 1024][chk.shard_index % 2] if chk.shard_count > 1 else int(os.environ.get("VERIF_C29_MIN_BYTES", "0"))
-    chk.explore("histories", c29_gen.cases(min_bytes), run_case, quick=360, thorough=4000)
+    chk.explore("histories", c29_gen.cases(min_bytes), run_case, quick=480, thorough=6000)
     if chk.shard_count == 1 and chk.replay is None:
         # single-process run: also explore the other value (module constant replaced, see ASSUMPTIONS)
         chk.explore("histories_alt", c29_gen.cases(1024 - min_bytes), run_case, quick=120, thorough=400)
